@@ -44,6 +44,7 @@ Section Refine.
   Proof. cbv -[wrap_sty Z.add]. reflexivity. Qed.
   Theorem branch_generic_refines_5 x0 x1 x2 x3 x4 : code lin_branch_generic [x0; x1; x2; x3; x4] = model false [x0; x1; x2; x3; x4].
   Proof. cbv -[wrap_sty Z.add]. reflexivity. Qed.
+
 End Refine.
 
 (* the if-constexpr chain selects the specialised branches exactly where the model does *)
